@@ -40,6 +40,8 @@ def units(tier, seed):
         {"sid": "topmarks", "family": "topmarks", "size": 6 if q else 7},
         {"sid": "basic", "family": "links", "size": 5 if q else 6},
         {"sid": "attrs", "family": "attrs", "size": 4 if q else 5, "blocks": 16},
+        # inline nodes with content; one of them is an atom (which is not the same as a leaf)
+        {"sid": "chips", "family": "chips", "size": 5 if q else 6},
     ]
     extra = [
         {"sid": "list", "family": "lists_q", "size": 10 if q else 14},
